@@ -33,6 +33,24 @@ def handle : List String → Verdict
         nontrivial := wire.length > 0, tags := [tag, "end:" ++ (if isDecode then "decode-error" else kind)],
         sig := s!"stream;{tag};{if isDecode then "decode" else kind}" }
     | _, _, _ => .badOp
+  | ["trailing", bodyH, tailH, outcome] =>
+    match hexField bodyH, hexField tailH with
+    | some _body, some tail =>
+      let blank := tail.all fun b => b == 32 || b == 9 || b == 10 || b == 13
+      { predfail :=
+          if outcome == "hang" || outcome == "panic" then some s!"a frame with {tail.length} byte(s) after the message: reader {outcome}"
+          else if blank && outcome != "message" then some s!"a frame whose message is followed by white space only was not read as the message: {outcome}"
+          else if !blank && outcome != "error" then some s!"a malformed frame (a complete message followed by {tail.length} more byte(s) that are not white space) was read as a message without an error"
+          else none,
+        nontrivial := true, tags := [if blank then "trailing-blank" else "trailing-data"], sig := s!"trailing;{if blank then "blank" else "data"};{outcome}" }
+    | _, _ => .badOp
+  | ["handlererr", statusH] =>
+    match hexField statusH with
+    | some status =>
+      let st := String.ofList (status.map fun c => Char.ofNat c.toNat)
+      { predfail := if st == "ok" then none else some s!"a connection whose handler returns an error: {st}",
+        nontrivial := true, tags := ["handler-error"], sig := "handlererr" }
+    | none => .badOp
   | ["pcall", nS, wrongS, dupsS] =>
     { predfail := if wrongS == "0" && dupsS == "0" then none else
         some s!"{nS} callers released together: {wrongS} did not get the response to their own request (or timed out), {dupsS} call id(s) were handed out twice",
